@@ -1,6 +1,6 @@
 (* C16 — A directory listing returns every entry exactly once. Theorems only; proofs in Proofs/ListingP.v *)
 From Coq Require Import List Bool Arith Strings.Byte.
-From Sftp Require Import Base.GoSem Wire.ClientParse Srv.Listing Proofs.ListingP.
+From Sftp Require Import Base.GoSem Wire.ClientParse Srv.Listing Proofs.ListingP Mode.FileMode Proofs.FileModeP.
 Import ListNotations.
 
 (* for every directory (any number of entries, any names), every batch size >= 1 and every lister behaviour that honours
@@ -29,6 +29,14 @@ Theorem C16_illegal_lister_spins : forall fuel dir reqs acc,
   snd (client_list fuel dir (fun _ _ => (0, false)) 3 0 acc reqs) = false.
 Proof. exact illegal_lister_spins. Qed.
 Print Assumptions C16_illegal_lister_spins.
+
+(* "with the attributes the server reported", for the owner of an entry that has two sources (attrs.go fileStatFromInfo): an
+   entry that implements FileInfoUidGid is listed with the ids it gives, whatever a host *syscall.Stat_t behind Sys() says; one
+   that does not, with the Stat_t's. Tied by kind listowner: every entry of the ownedlisting cases. *)
+Theorem C16_listed_owner_is_the_reported_one : forall hs stat_ids iface_ids,
+  fileStat_owner hs true stat_ids iface_ids = iface_ids /\ fileStat_owner true false stat_ids iface_ids = stat_ids.
+Proof. exact listed_owner_is_the_reported_one. Qed.
+Print Assumptions C16_listed_owner_is_the_reported_one.
 
 Example C16_nonvacuous :
   let dir := [[x2e]; [x2e; x2e]; [x61]; [x62]; [x63]; [x64]; [x65]]%byte in
